@@ -1,64 +1,136 @@
-"""Generated/FastIndexerConsts.v for C08: the column widths of the indexer's private record
-(_RAW_DTYPE_WITH_SIZE in parsers/fast_indexer.py), of FileIndex._RAW_DTYPE / _DTYPE (parsers/file_index.py) and
-Timestamp._INVALID (messages/timestamp.py).  Fail closed: an unexpected field list or type raises."""
-import ast, os, sys
+"""Generated/FastIndexerConsts.v for C08: the integer ranges of the index columns and the "no time" marker.
+
+Nothing here matches source text or private names.  The working tree is *evaluated* in a subprocess (vf.IMPL_ENV):
+  * FI_TYPE_MAX / FI_OFFSET_MAX: from the dtypes of the arrays a FileIndex built by fast_generate_index() returns
+    (public observables); the time column must be binary64 and the ordinal column an unsigned 64-bit integer.
+  * FI_TIME_INVALID: Timestamp._INVALID if the class has it; cross-checked against / replaced by behaviour: the first
+    32-bit word of a packed NaN Timestamp.
+  * FI_INT_MAX / FI_SIZE_MAX (the indexer's private per-worker record): the module namespace of fast_indexer is
+    searched for a structured numpy dtype *of that shape* — unsigned integer fields (int, type, offset, size),
+    whatever the variable is called.  If there is none (the record was refactored away) the widths are derived
+    from behaviour: files with one CRC-valid message of 65535 / 65536 / READ+MAX bytes and stamps of
+    0xFFFFFFFE s are indexed; an OverflowError at 65536 means a 16-bit size column, no error up to the largest
+    message a block read can hold means "every acceptable size fits" (24 + _MAX_EXPECTED_SIZE_BYTES); anything else
+    is not of the modelled shape and the translator fails closed.
+"""
+import json, os, subprocess, sys
 sys.path.insert(0, os.path.join(os.path.dirname(__file__), '..', 'lib'))
 import vf
-from translators import gen_fe
 
-FI = 'python/fusion_engine_client/parsers/fast_indexer.py'
-FX = 'python/fusion_engine_client/parsers/file_index.py'
-TS = 'python/fusion_engine_client/messages/timestamp.py'
-UNSIGNED = {'<u1': 8, '<u2': 16, '<u4': 32, '<u8': 64}
+PROBE = r'''
+import json, math, os, struct, sys, tempfile, zlib
+import numpy as np
+from fusion_engine_client.messages import MessageHeader, Timestamp
+from fusion_engine_client.parsers import fast_indexer as fi
+
+def msg(mtype, payload, ver=0):
+    body = struct.pack('<BBHIII', 2, ver, mtype, 0, len(payload), 0xFFFFFFFF) + payload
+    return b'.1' + struct.pack('<HI', 0, zlib.crc32(body)) + body
+
+def index(data):
+    d = tempfile.mkdtemp(prefix='gen_c08_')
+    p = os.path.join(d, 'probe.p1log')
+    with open(p, 'wb') as f:
+        f.write(data)
+    try:
+        return fi.fast_generate_index(p, force_reindex=True, save_index=False, num_threads=1)
+    finally:
+        os.remove(p); os.rmdir(d)
+
+out = {}
+# returned arrays (public)
+idx = index(msg(20000, b'\x00' * 8) + b'\x00' * 10)
+if len(idx) != 1:
+    raise SystemExit('gen_c08: probe file with one message gives %d entries' % len(idx))
+out['result_dtypes'] = {k: np.dtype(getattr(idx, k).dtype).str for k in ('time', 'type', 'offset', 'message_index')}
+# "no time" marker
+nan_word = struct.unpack('<II', Timestamp().pack(return_buffer=True))[0]
+out['nan_word'] = int(nan_word)
+out['attr_invalid'] = int(getattr(Timestamp, '_INVALID')) if hasattr(Timestamp, '_INVALID') else None
+# private per-worker record, by shape
+found = []
+for name, v in vars(fi).items():
+    if isinstance(v, np.dtype) and v.names == ('int', 'type', 'offset', 'size'):
+        found.append({n: v[n].str for n in v.names})
+out['sized_dtypes'] = found
+# behaviour of the integer columns
+def outcome(data):
+    try:
+        r = index(data)
+        return ['ok', len(r)]
+    except OverflowError as e:
+        return ['OverflowError', str(e)[:80]]
+rd = int(getattr(fi, '_READ_SIZE_BYTES', getattr(fi, 'READ_SIZE_BYTES', 0)))
+mx = int(getattr(fi, '_MAX_FE_MSG_SIZE_BYTES', getattr(fi, 'MAX_FE_MSG_SIZE_BYTES', 0)))
+out['size_probe'] = {str(n): outcome(msg(20000, b'\x55' * (n - 24)) + b'\x00' * 10) for n in sorted({65535, 65536, rd + mx}) if n >= 24}
+print(json.dumps(out))
+'''
+
+UNSIGNED = {'<u1': 8, '|u1': 8, '<u2': 16, '<u4': 32, '<u8': 64}
 
 
-def _dtype_fields(node, where):
-    """np.dtype([('a','<u4'), ...]) -> [('a','<u4'), ...]"""
-    if not (isinstance(node, ast.Call) and isinstance(node.func, ast.Attribute) and node.func.attr == 'dtype'
-            and len(node.args) == 1 and isinstance(node.args[0], ast.List)):
-        raise RuntimeError('gen_c08: %s is not np.dtype([...])' % where)
-    out = []
-    for e in node.args[0].elts:
-        if not (isinstance(e, ast.Tuple) and len(e.elts) == 2 and all(isinstance(x, ast.Constant) and isinstance(x.value, str) for x in e.elts)):
-            raise RuntimeError('gen_c08: %s has a field that is not (name, type)' % where)
-        out.append((e.elts[0].value, e.elts[1].value))
-    return out
-
-
-def _find_assign(tree, name, cls=None):
-    body = tree.body
-    if cls:
-        body = next((n.body for n in tree.body if isinstance(n, ast.ClassDef) and n.name == cls), None)
-        if body is None:
-            raise RuntimeError('gen_c08: class %s not found' % cls)
-    for st in body:
-        if isinstance(st, ast.Assign) and len(st.targets) == 1 and isinstance(st.targets[0], ast.Name) and st.targets[0].id == name:
-            return st.value
-    raise RuntimeError('gen_c08: %s not found' % name)
+def probe():
+    p = subprocess.run([vf.PY, '-c', PROBE], capture_output=True, text=True, env=vf.IMPL_ENV, timeout=300)
+    lines = [l for l in p.stdout.split('\n') if l.startswith('{')]
+    if p.returncode != 0 or not lines:
+        err = '\n'.join(l for l in (p.stderr + p.stdout).split('\n') if l.strip() and 'leap' not in l.lower())
+        raise RuntimeError('gen_c08: probe of the working tree failed: %s' % err[-800:])
+    return json.loads(lines[-1])
 
 
 def generate():
-    with_size = _dtype_fields(_find_assign(ast.parse(vf.repo_file(FI)), '_RAW_DTYPE_WITH_SIZE'), '_RAW_DTYPE_WITH_SIZE')
-    fx = ast.parse(vf.repo_file(FX))
-    raw = _dtype_fields(_find_assign(fx, '_RAW_DTYPE', 'FileIndex'), 'FileIndex._RAW_DTYPE')
-    full = _dtype_fields(_find_assign(fx, '_DTYPE', 'FileIndex'), 'FileIndex._DTYPE')
-    if [n for n, _ in with_size] != ['int', 'type', 'offset', 'size'] or any(t not in UNSIGNED for _, t in with_size):
-        raise RuntimeError('gen_c08: _RAW_DTYPE_WITH_SIZE %r is not (int,type,offset,size) of little-endian unsigned ints' % (with_size,))
-    if raw != with_size[:3]:
-        raise RuntimeError('gen_c08: FileIndex._RAW_DTYPE %r is not the first three columns of _RAW_DTYPE_WITH_SIZE' % (raw,))
-    if full != [('time', '<f8'), ('type', raw[1][1]), ('offset', raw[2][1]), ('message_index', '<u8')]:
-        raise RuntimeError('gen_c08: FileIndex._DTYPE %r is not (time f8, type, offset, message_index u8)' % (full,))
-    inv = gen_fe.class_consts(TS, 'Timestamp', ['_INVALID'])['_INVALID']
-    bits = {n: UNSIGNED[t] for n, t in with_size}
-    if inv != (1 << bits['int']) - 1:
-        raise RuntimeError('gen_c08: Timestamp._INVALID %r is not the all-ones value of the int column (%d bits)' % (inv, bits['int']))
-    vals = {'FI_TIME_INVALID': inv, 'FI_INT_MAX': (1 << bits['int']) - 1, 'FI_TYPE_MAX': (1 << bits['type']) - 1,
-            'FI_OFFSET_MAX': (1 << bits['offset']) - 1, 'FI_SIZE_MAX': (1 << bits['size']) - 1}
-    t = vf.gen_header([FI, FX, TS]) + 'From Coq Require Import NArith.\nOpen Scope N_scope.\n'
+    r = probe()
+    dt = r['result_dtypes']
+    if dt['time'] != '<f8' or dt['message_index'] != '<u8' or dt['type'] not in UNSIGNED or dt['offset'] not in UNSIGNED:
+        raise RuntimeError('gen_c08: returned index arrays %r are not (time f8, type uN, offset uN, message_index u8)' % (dt,))
+    inv = r['nan_word']
+    if r['attr_invalid'] is not None and r['attr_invalid'] != inv:
+        raise RuntimeError('gen_c08: Timestamp._INVALID (%r) is not the word a NaN Timestamp packs to (%r)' % (r['attr_invalid'], inv))
+    how = {}
+    sized = r['sized_dtypes']
+    if len(sized) == 1 and all(t in UNSIGNED for t in sized[0].values()):
+        bits = {k: UNSIGNED[t] for k, t in sized[0].items()}
+        int_max, size_max = (1 << bits['int']) - 1, (1 << bits['size']) - 1
+        how['private_record'] = 'dtype found in the module namespace by shape: %r' % (sized[0],)
+        if bits['type'] != UNSIGNED[dt['type']] or bits['offset'] != UNSIGNED[dt['offset']]:
+            raise RuntimeError('gen_c08: per-worker record %r and returned arrays %r disagree on type/offset widths' % (sized[0], dt))
+    elif len(sized) == 0:
+        sp = r['size_probe']
+        big = [k for k in sp if int(k) > 65535]
+        if sp.get('65535', ['?'])[0] != 'ok':
+            raise RuntimeError('gen_c08: a 65535-byte message is not indexed: %r' % (sp,))
+        if all(sp[k][0] == 'OverflowError' for k in big):
+            size_max = 65535
+        elif all(sp[k][0] == 'ok' for k in big):
+            size_max = 24 + _max_expected()
+        else:
+            raise RuntimeError('gen_c08: size behaviour %r is neither a 16-bit column nor "every size fits"' % (sp,))
+        int_max = (1 << 32) - 1
+        if inv != int_max:
+            raise RuntimeError('gen_c08: no-time marker %r is not 2^32-1' % inv)
+        how['private_record'] = 'no (int,type,offset,size) dtype in the module; widths from behaviour: %r' % (sp,)
+    else:
+        raise RuntimeError('gen_c08: %d candidate per-worker record dtypes: %r' % (len(sized), sized))
+    if inv != int_max:
+        raise RuntimeError('gen_c08: no-time marker %r is not the all-ones value of the int column (max %r)' % (inv, int_max))
+    vals = {'FI_TIME_INVALID': inv, 'FI_INT_MAX': int_max, 'FI_TYPE_MAX': (1 << UNSIGNED[dt['type']]) - 1,
+            'FI_OFFSET_MAX': (1 << UNSIGNED[dt['offset']]) - 1, 'FI_SIZE_MAX': size_max}
+    t = ('(* GENERATED on every run by /verif/translators/gen_c08.py by evaluating the working tree (import + behaviour probes) — do not edit. *)\n'
+         'From Coq Require Import NArith.\nOpen Scope N_scope.\n')
     for k, v in vals.items():
         t += 'Definition %s : N := %d.\n' % (k, v)
     vf.write_if_changed(os.path.join(vf.THEORIES, 'Generated', 'FastIndexerConsts.v'), t)
-    return vals
+    return dict(vals, **how)
+
+
+def _max_expected():
+    p = subprocess.run([vf.PY, '-c', 'from fusion_engine_client.messages import MessageHeader as H\n'
+                        'print(int(getattr(H, "_MAX_EXPECTED_SIZE_BYTES", getattr(H, "MAX_EXPECTED_SIZE_BYTES", -1))))'],
+                       capture_output=True, text=True, env=vf.IMPL_ENV, timeout=120)
+    v = int(p.stdout.strip().split('\n')[-1])
+    if v <= 0:
+        raise RuntimeError('gen_c08: cannot read the payload size limit')
+    return v
 
 
 if __name__ == '__main__':
